@@ -195,6 +195,17 @@ Definition mps_add4 (same : bool) (ka kb : nat) (ca cb : R) (a b : list (nat * T
   if same then (add4 a b, ca)
   else (add4 (scale_at4 ka ca a) (scale_at4 kb cb b), r1 R).
 
+(* ------------------------------------------------------------------ MpDm.from_mps: mo[:, i, i, :] = ms[:, i, :]  (zero elsewhere), same dtype,
+   coeff and labels copied *)
+Definition from_mps4 (ts : list (nat * T3)) : list (nat * T4) :=
+  map (fun x => (fst x, fun l pu pd r => if Nat.eqb pu pd then snd x l pu r else r0 R)) ts.
+Fixpoint eqbl (a b : list nat) : bool :=
+  match a, b with
+  | [], [] => true
+  | x :: a', y :: b' => Nat.eqb x y && eqbl a' b'
+  | _, _ => false
+  end.
+
 (* ------------------------------------------------------------------ rank 4 seen as a family of rank-3 chains:
    fix the lower physical index of site j to f j *)
 Fixpoint slice4 (f : nat -> nat) (i : nat) (ts : list (nat * T4)) : list (nat * T3) :=
@@ -227,6 +238,7 @@ Arguments mps_add3 {R} same ka kb ca cb a b.
 Arguments mps_add4 {R} same ka kb ca cb a b.
 Arguments mps_dist2_3 {R} same dps ka kb ca cb a b.
 Arguments slice4 {R} f i ts.
+Arguments from_mps4 {R} ts.
 Arguments tab2 {R} n m f.
 Arguments of2 {R} x.
 
